@@ -250,7 +250,7 @@ def generate(loader):
                        "; ".join(f"({zl(j)}, {zl(i)})" for j, i in prov) + "].\n")
             out.append(f"Definition gen_io_shape_{name} : list Z := {zl(reversed(arr.shape))}.\n")
         # ---- pooling (data through symtorch's avg_pool, grid through Grid.avg_pool)
-        for name, shape, ks in (("pool2", (2, 4), 2), ("pool_aniso", (2, 6), (3, 2))):
+        for name, shape, ks in (("pool2", (2, 4), 2), ("pool_aniso", (4, 6), (2, 3))):
             D = len(shape)
             g = concrete_size(mk_grid(G.Grid, D, align=True), shape)
             fb = Fake(sym_image(shape), [g])
